@@ -17,7 +17,7 @@ open Ledger.Ctrl Ledger.Core Ledger.Ctrl.Examples
 /-- An account, once listed, stays listed; its insertion date never changes; its
     first usage never rises — across any write operation, failing or not, with or
     without an injected fault. -/
-theorem insertion_date_constant (strict : Bool) (s : State) (op : Op) (f : Option Fault) (cf : Bool)
+theorem insertion_date_constant (strict : Bool) (s : State) (op : Op) (f : Faults) (cf : Bool)
     (a : String) (acc : Account) (h : s.db.accounts.get? a = some acc) :
     ∃ acc', (stepF strict s op f cf).1.db.accounts.get? a = some acc' ∧
       acc'.insertionDate = acc.insertionDate ∧ acc'.firstUsage ≤ acc.firstUsage :=
@@ -31,7 +31,7 @@ theorem account_rows_monotone (strict : Bool) (s : State) (ops : List Op) (a : S
   induction ops generalizing s acc with
   | nil => exact ⟨acc, h, rfl, Int.le_refl _⟩
   | cons op r ih =>
-    obtain ⟨x, hx, hi, hf⟩ := forgeLog_accLe strict op none false s a acc h
+    obtain ⟨x, hx, hi, hf⟩ := forgeLog_accLe strict op [] false s a acc h
     obtain ⟨y, hy, hi2, hf2⟩ := ih (step strict s op).1 x hx
     exact ⟨y, hy, hi2.trans hi, Int.le_trans hf2 hf⟩
 
